@@ -29,7 +29,9 @@ def make_stencil(weights_per_axis, nout=1):
     dims; shrinks each by len(w_axis)-1.  With nout=2 it returns a pair
     (the stencil and an affine image of it)."""
 
-    def stencil(*arrs):
+    def stencil(*arrs, scale=1.0, shift=0.0):
+        # (`scale` and `shift` are keyword parameters of the user function: callers hand them to
+        # apply_as_grid_ufunc / the GridUFunc object as extra keyword arguments)
         a = arrs[0]
         for extra in arrs[1:]:
             a = a + 2.0 * extra
@@ -45,6 +47,8 @@ def make_stencil(weights_per_axis, nout=1):
                 term = a[tuple(sl)] * float(wi)
                 acc = term if acc is None else acc + term
             a = acc
+        if scale != 1.0 or shift != 0.0:
+            a = a * float(scale) + float(shift)
         if nout == 2:
             return a, a * 3.0 + 1.0
         return a
@@ -514,6 +518,9 @@ def gen_ufunc_case(rng, gs, spec, tier):
                   "frompos": frompos, "topos": topos}
     if nout == 2:
         spec["op"]["nout"] = 2
+    if rng.random() < 0.3:
+        # keyword arguments meant for the user function itself (xarray.apply_ufunc(kwargs=...))
+        spec["op"]["func_kw"] = rng.choice([{"scale": 2.0}, {"shift": 3.0}, {"scale": -2.0, "shift": 1.0}])
     if inputs2 is not None and rng.random() < 0.4:
         # either argument may be the one with fewer dimensions
         spec["input"], spec["input2"] = spec["input2"], spec["input"]
@@ -716,6 +723,9 @@ def call_op(grid, op, da, da2=None, vector=None, eager=False):
         if vector:
             args = [{vector["axis"]: da}]
             kw["other_component"] = {vector["other_axis"]: da2}
+        if op.get("func_kw"):
+            # (forwarded to xarray.apply_ufunc, whose `kwargs` are handed to the user function)
+            kw["kwargs"] = dict(op["func_kw"])
         if op.get("via") == "decorator":
             deco_kw = {k: kw.pop(k) for k in ("signature", "boundary_width") if k in kw}
             for k in ("dask", "map_overlap"):
@@ -1434,7 +1444,8 @@ RULE = (
     "optionally carrying a scalar and a non-index coordinate the grid dataset does not know) in a random dimension "
     "order, an operation (diff/interp/min/max over 1-3 axes with all valid shifts, cumsum, derivative, integrate, "
     "average, cumint, interp_like, metric_weighted, user grid ufuncs with 1-2 inputs, 1-2 axes and generated integer stencils via "
-    "apply_as_grid_ufunc or as_grid_ufunc with and without map_overlap and with boundary_width listed in any order, "
+    "apply_as_grid_ufunc or as_grid_ufunc with and without map_overlap, with boundary_width listed in any order and (30%) "
+    "with extra keyword arguments for the user function, "
     "two-axis user ufuncs on face-connected grids, vector components with other_component, diff_2d_vector/"
     "interp_2d_vector), and an independent random composition of every dimension length into chunks (face grids: face "
     "and non-spatial dimensions only); the grid dataset is chunked too, independently of the data, in half of the "
